@@ -26,12 +26,12 @@ Monitors / oracle (rv/ref/c37_link.py `Engine` + `RxModel`, shared with C37): al
              numbered advertised+1, ... which must all be accepted, acknowledged with their numbers, offered bit-exact
              and in order; every later LCRD needs a consumed header and continues the A-B-C-D order; (the complete
              C37 model keeps running during every life).
-         For race lives the advertised number may be any value consistent with counting / not counting the racing
-         header; consistency (what is advertised is what is then expected) is still enforced.
+         For race lives the advertised number may be any value consistent with counting / not counting the racing /
+         unacknowledged headers; consistency (what is advertised is what is then expected) is still enforced.
 Classification (known findings must be narrow): a life is *tainted "midcmd"* iff at the LAST cycle in which the DUT could
          see the restart condition (falling edge of enable, or usb_reset high) `source.valid` was high in that cycle or
          the next one (= the receiver was busy sending a link command); *tainted "race"* iff a header ended within 6
-         cycles before link-down or while down.  A violation in a tainted life is reported under the single mechanism
+         cycles before link-down or while down, or an accepted header's LGOOD had not been sent yet at link-down.  A violation in a tainted life is reported under the single mechanism
          of that class (detail carries the symptom); violations in clean lives carry the symptom as mechanism.
 Not judged: anything the DUT sends while the link is down; commands already in flight at the rising edge of enable
          (never happens because of the flush rule); LUP/LXU/LRTY; latency (only bounded progress: 120 / 150 / 300 cycles with
